@@ -88,6 +88,8 @@ func c20Check(c c20Case) (fs []rep.Finding) {
 	var err error
 	sellerOutIdx := -1
 	var sellerOutBytes []byte
+	var again func()
+	otherScript := refP2PKH(fill(20, 0xd4))
 	switch c.Flow {
 	case 0, 1:
 		so := &bt.Output{Satoshis: c.Price, LockingScript: libScript(sellerRecv)}
@@ -110,6 +112,14 @@ func c20Check(c c20Case) (fs []rep.Finding) {
 			tx, err = ord.AcceptOrdinalSaleListing2Dummies(ctx, vla, ala)
 			sellerOutIdx = 2
 		}
+		again = func() {
+			ala2 := &ord.AcceptListingArgs{PSTx: pstx2, UTXOs: append([]*bt.UTXO(nil), funds...), BuyerReceiveOrdinalScript: libScript(otherScript), DummyOutputScript: libScript(otherScript), ChangeScript: libScript(otherScript), FQ: fq}
+			if c.Flow == 0 {
+				_, _ = ord.AcceptOrdinalSaleListing(ctx, vla, ala2)
+			} else {
+				_, _ = ord.AcceptOrdinalSaleListing2Dummies(ctx, vla, ala2)
+			}
+		}
 	case 2:
 		pstx, berr := ord.MakeBidToBuy1SatOrdinal(ctx, &ord.MakeBidArgs{BidAmount: c.Price, OrdinalTxID: hex.EncodeToString(ordUTXO.TxID), OrdinalVOut: ordUTXO.Vout,
 			BidderUTXOs: funds, BuyerReceiveOrdinalScript: libScript(buyerRecv), DummyOutputScript: libScript(dummyScript), ChangeScript: libScript(changeScript), FQ: fq})
@@ -122,6 +132,10 @@ func c20Check(c c20Case) (fs []rep.Finding) {
 		}
 		tx, err = ord.AcceptBidToBuy1SatOrdinal(ctx, &ord.ValidateBidArgs{OrdinalUTXO: ordUTXO, BidAmount: c.Price, ExpectedFQ: fq},
 			&ord.AcceptBidArgs{PSTx: pstx2, SellerReceiveScript: libScript(sellerRecv), OrdinalUnlocker: &unlocker.Simple{PrivateKey: seller.priv}})
+		again = func() {
+			_, _ = ord.AcceptBidToBuy1SatOrdinal(ctx, &ord.ValidateBidArgs{OrdinalUTXO: ordUTXO, BidAmount: c.Price, ExpectedFQ: fq},
+				&ord.AcceptBidArgs{PSTx: pstx2, SellerReceiveScript: libScript(otherScript), OrdinalUnlocker: &unlocker.Simple{PrivateKey: seller.priv}})
+		}
 	case 3:
 		pstx, berr := ord.MakeBidToBuy1SatOrdinal2Dummies(ctx, &ord.MakeBid2DArgs{BidAmount: c.Price, OrdinalTxID: hex.EncodeToString(ordUTXO.TxID), OrdinalVOut: ordUTXO.Vout,
 			BidderUTXOs: funds, BuyerReceiveOrdinalScript: libScript(buyerRecv), DummyOutputScript: libScript(dummyScript), ChangeScript: libScript(changeScript), FQ: fq})
@@ -136,11 +150,27 @@ func c20Check(c c20Case) (fs []rep.Finding) {
 		prev = append(prev, funds[2:]...)
 		tx, err = ord.AcceptBidToBuy1SatOrdinal2Dummies(ctx, &ord.ValidateBid2DArgs{PreviousUTXOs: prev, BidAmount: c.Price, ExpectedFQ: fq},
 			&ord.AcceptBid2DArgs{PSTx: pstx2, SellerReceiveOrdinalScript: libScript(sellerRecv), OrdinalUnlocker: &unlocker.Simple{PrivateKey: seller.priv}})
+		again = func() {
+			_, _ = ord.AcceptBidToBuy1SatOrdinal2Dummies(ctx, &ord.ValidateBid2DArgs{PreviousUTXOs: prev, BidAmount: c.Price, ExpectedFQ: fq},
+				&ord.AcceptBid2DArgs{PSTx: pstx2, SellerReceiveOrdinalScript: libScript(otherScript), OrdinalUnlocker: &unlocker.Simple{PrivateKey: seller.priv}})
+		}
 	}
 	if err != nil || tx == nil {
 		return nil // flow refused; the property speaks about completed transactions
 	}
 	flow := []string{"list-accept", "list-accept2d", "bid-accept", "bid2d-accept2d"}[c.Flow]
+	// the same partially signed transaction object is completed a SECOND time towards other scripts (a
+	// seller re-running the acceptance with another receive address): the sale returned first is a
+	// transaction of its own and stays what it was
+	{
+		snap := append([]byte(nil), tx.ExtendedBytes()...)
+		if again != nil {
+			_ = rep.Guard(again)
+		}
+		if !bytes.Equal(snap, tx.ExtendedBytes()) {
+			fs = append(fs, rep.F(flow+"|earlier-result-changed-by-a-second-acceptance", "the completed transaction changed when the same partially signed transaction was completed a second time"))
+		}
+	}
 	// (a) every input verifies
 	final, perr := txref.Parse(tx.Bytes())
 	if perr != nil {
@@ -333,7 +363,7 @@ func lenClass(n int) string {
 
 func init() {
 	p := register(&Prop{ID: "C20", Level: "exploration",
-		Rule: "exhaustive product: 4 flow pairs (list->accept, list->accept2Dummies, bid->accept, bid2Dummies->accept2Dummies) x seller/buyer keys (2x2 quick, 3x3 thorough) x funding UTXOs all locked to the buyer's key / each to a key of its own / the second one being another output of the ordinal's transaction x prices {1,2,546,1000,1000000} x ordinal UTXO of 1 (and 2) satoshis, plain or inscription script (also continued by OP_RETURN and a well-formed tail of 0..3 bytes) x funding sets of 2..4 UTXOs whose values are placed around the thresholds (price, price+1, reference-fee boundary -2..+3, ample) with the UTXO exceeding the price at every position, and sets in which no UTXO exceeds the price although two or three together do x 3 fee quotes; the partially signed tx crosses a serialisation boundary. Oracle for every completed transaction: each input accepted by Execute(WithTx, WithForkID, WithAfterGenesis) against its spent output; listing flows keep the seller's output byte-identical at the index of the seller's input; FIFO satoshi assignment puts the ordinal's first satoshi in the buyer's script; inputs-outputs >= reference fee of the actual size. Inscriptions: content-type lengths {0,1,75,76,255,256} x payload lengths {0,1,75,76,255,256,65535,65536} x enrichment {none,1,2 parts} x prefix with/without spare capacity, plus one- and two-byte payloads and content types with every first byte value, inscribed twice through Inscribe and once through InscribeSpecificOrdinal (ordinal 3 of the second input; the separating output must hold the satoshis in front of it): ParseInscription returns the same content type, data and 25-byte prefix. distinct_nontrivial = distinct completed transactions + inscription cases",
+		Rule: "exhaustive product: 4 flow pairs (list->accept, list->accept2Dummies, bid->accept, bid2Dummies->accept2Dummies) x seller/buyer keys (2x2 quick, 3x3 thorough) x funding UTXOs all locked to the buyer's key / each to a key of its own / the second one being another output of the ordinal's transaction x prices {1,2,546,1000,1000000} x ordinal UTXO of 1 (and 2) satoshis, plain or inscription script (also continued by OP_RETURN and a well-formed tail of 0..3 bytes) x funding sets of 2..4 UTXOs whose values are placed around the thresholds (price, price+1, reference-fee boundary -2..+3, ample) with the UTXO exceeding the price at every position, and sets in which no UTXO exceeds the price although two or three together do x 3 fee quotes; the partially signed tx crosses a serialisation boundary. Oracle for every completed transaction (examined after the same partially signed transaction object was completed a second time towards other scripts, which must not change it): each input accepted by Execute(WithTx, WithForkID, WithAfterGenesis) against its spent output; listing flows keep the seller's output byte-identical at the index of the seller's input; FIFO satoshi assignment puts the ordinal's first satoshi in the buyer's script; inputs-outputs >= reference fee of the actual size. Inscriptions: content-type lengths {0,1,75,76,255,256} x payload lengths {0,1,75,76,255,256,65535,65536} x enrichment {none,1,2 parts} x prefix with/without spare capacity, plus one- and two-byte payloads and content types with every first byte value, inscribed twice through Inscribe and once through InscribeSpecificOrdinal (ordinal 3 of the second input; the separating output must hold the satoshis in front of it): ParseInscription returns the same content type, data and 25-byte prefix. distinct_nontrivial = distinct completed transactions + inscription cases",
 	})
 	sF := NewSpace(p, "flows", c20Check)
 	sI := NewSpace(p, "inscriptions", c20InscCheck)
